@@ -1,6 +1,7 @@
 import Hub.Drv.Util
 import Hub.Model.Store
 import Hub.Model.Crash
+import Hub.Model.MultiSource
 import Hub.Generated.CrashPoints
 /-! Driver for `store.hist`: replays a history on the store model with the real run's ids, times and
 dataset ids, and renders the same canonical observations as the harness. -/
@@ -25,6 +26,7 @@ structure S where
   conts : List (String × (Nat × Nat × Nat × List Nat × Bool × Option RefKey)) := []  -- label ↦ (start, pred, at, scope, inverse, key); key none = finished
   lastT : Nat := 0
   dsidEver : List Nat := []              -- every dataset id ever handed out
+  jobs : List (String × Hub.Multi.Tok) := []  -- C18: stored continuation token per MultiSource job
   /-- the inputs themselves contradict the specification: an internal id or a dataset id was handed out twice
   (C04/C07/C13: identifiers are never reused, also not after a crash). The specification then has no answer. -/
   poison : Option String := none
@@ -324,6 +326,79 @@ def reresolveOne (s : S) (v : VKey × Ent) : VKey × Ent :=
 
 def reresolve (s : S) : S := { s with db := { s.db with versions := s.db.versions.map (reresolveOne s) } }
 
+/-! ### C18: a run of a MultiSource job -/
+
+def parseJoin (j : Json) : R Hub.Multi.Join := do
+  return { ds := ← getStr j "dataset", pred := ← getStr j "predicate", inv := ← getBool j "inverse" }
+def parseDep (j : Json) : R Hub.Multi.Dep := do
+  return { ds := ← getStr j "dataset", joins := ← (← getArr j "joins").toList.mapM parseJoin }
+def jDep (d : Hub.Multi.Dep) : Json :=
+  Json.mkObj [("dataset", Json.str d.ds), ("joins", jList (fun (j : Hub.Multi.Join) =>
+    Json.mkObj [("dataset", Json.str j.ds), ("predicate", Json.str j.pred), ("inverse", Json.bool j.inv)]) d.joins)]
+
+/-- the relation of the specification: the graph implied by the latest versions. -/
+def graphRel (s : S) : Hub.Multi.Rel := fun start pred inv scope at_ =>
+  if inv then (graphIn s start pred at_ scope).map (·.2) else (graphOut s start pred at_ scope).map (·.2)
+
+/-- the start entities (with scope) of the inverse joins of a chain as the model follows it: the queries
+that can fall into the class of known finding D4. -/
+def inverseStarts (s : S) (rel : Hub.Multi.Rel) (now : Nat) (prevAt : Option Nat) : Nat → String → List Nat → List Hub.Multi.Join → List (Nat × List Nat)
+  | _, _, _, [] => []
+  | idx, prevDs, starts, j :: rest =>
+    match s.rid.lookup j.pred with
+    | none => []
+    | some p =>
+      let scope := [prevDs, j.ds].filterMap (s.dsid.lookup ·)
+      let reached := (starts.flatMap fun st => rel st p j.inv scope now ++
+        (if idx = 0 && !j.inv then (match prevAt with | some t => rel st p false scope t | none => []) else [])).eraseDups
+      (if j.inv then starts.map (·, scope) else []) ++ inverseStarts s rel now prevAt (idx + 1) j.ds reached rest
+
+def msrun (a : Acc) (op : Json) : R Acc := do
+  let s := a.s
+  let job ← getStr op "job"
+  let main ← getStr op "main"
+  let explicit ← (← getArr op "deps").toList.mapM parseDep
+  let chains ← (getArrD op "hops").toList.mapM fun ch => do
+    (← ch.getArr?).toList.mapM fun h => do
+      return ({ ds := ← getStr h "dataset", pred := ← getStr h "predicate", inv := ← getBool h "inverse" } : Hub.Multi.Hop)
+  let declared := explicit ++ chains.filterMap (Hub.Multi.reverseHops main)
+  let cfg : Hub.Multi.Cfg := { main := main, deps := Hub.Multi.buildDeps main declared, batch := ← getNat op "batch", latestOnly := getBoolD op "latestOnly" false }
+  let predId := fun (p : String) => s.rid.lookup p
+  let dsId := fun (n : String) => s.dsid.lookup n
+  let now := bigT
+  let stored := s.jobs.lookup job
+  let full := getBoolD op "full" false || (match stored with | none => true | some t => t.main.isNone)
+  let fuel := s.db.changes.length + 3
+  let run (rel : Hub.Multi.Rel) : List Nat × List Nat × Hub.Multi.Tok :=
+    if full then
+      let r := Hub.Multi.fullRun s.db dsId cfg fuel (Hub.Multi.startFull s.db dsId cfg) []
+      ([], r.1, r.2)
+    else Hub.Multi.incrRun rel s.db predId dsId cfg now fuel (stored.getD {}) [] []
+  let render (r : List Nat × List Nat × Hub.Multi.Tok) : Json :=
+    let depU := Hub.Store.sortBy (· < ·) ((r.1.map (uriFor s)).eraseDups)
+    Json.mkObj [("res", Json.str "ok"), ("deps", jList jDep cfg.deps), ("dep", jStrs depU), ("main", jStrs (r.2.1.map (uriFor s))),
+      ("tok", Json.mkObj [("main", match r.2.2.main with | some n => jNat n | none => jInt (-1)),
+                          ("deps", Json.mkObj (r.2.2.deps.map fun (k, v) => (k, jNat v)))])]
+  let rm := run (Hub.Multi.scanRel s.db cfg.batch)
+  let rs := run (graphRel s)
+  let jm := render rm
+  let js := render rs
+  -- known finding D4: an inverse join whose start entity is referenced through several (predicate, dataset)
+  -- combinations by one entity
+  let inD4 := !full && jm.compress != js.compress && cfg.deps.any fun dep =>
+    match dsId dep.ds with
+    | none => false
+    | some dd =>
+      let since := ((stored.getD {}).dep dep.ds).getD 0
+      let ids := (Hub.Store.changesOf s.db dd).map (fun c => c.2.rid)     -- any window of this dependency
+      let prevAt := if since > 0 then Hub.Multi.timeAtPos s.db dd (since - 1) else none
+      (inverseStarts s (Hub.Multi.scanRel s.db cfg.batch) now prevAt 0 dep.ds ids.eraseDups dep.joins).any fun (st, scope) => d4Class s st now scope
+  let kfq := if inD4 then some "inverse-query/several-predicate-dataset-combinations-per-referencing-entity" else none
+  return { a with s := { s with jobs := (job, rm.2.2) :: s.jobs.filter (·.1 != job) },
+                  outM := a.outM.push jm, outS := a.outS.push js, nt := a.nt + (if rm.1.isEmpty then 0 else 1),
+                  kf := match a.kf with | some k => some k | none => kfq,
+                  kfi := if kfq.isSome then a.outM.size :: a.kfi else a.kfi }
+
 def doOpCore (a : Acc) (idx : Nat) (op : Json) : R Acc := do
   let s := regIds a.s ((getOpt op "newids").getD (Json.mkObj []))
   -- identifiers get their internal id lazily (the refs of a deleted version are only asserted when the
@@ -409,6 +484,7 @@ def doOpCore (a : Acc) (idx : Nat) (op : Json) : R Acc := do
     | none => return a
   | "gc" => return { a with s := { s with db := gc s.db } }
   | "reopen" => return a
+  | "msrun" => msrun a op
   | "backup" =>
     if !okRc then return a
     -- a completed backup run captures the state at its start
